@@ -522,7 +522,49 @@ def _state_mutations(ix, block):
   return out
 
 
-@rule("R7.6", "C07", floor=9)
+def _insert_undo_conditional(ix, fn, blk, call, fld):
+  """How the ERASE undo of `state.<fld>.insert(x)` is made conditional on the
+  insertion having taken place; None if it is unconditional."""
+  arg = uncast(term(ix, inner(call)[1])) if len(inner(call)) > 1 else None
+  # (a) the bool of the returned pair guards the push
+  bool_names = set()
+  for d in cxx.walk(fn.body):
+    if d.get("kind") == "DecompositionDecl" and any(x is call for x in cxx.walk(d)):
+      bs = [b for b in inner(d) if b.get("kind") == "BindingDecl"]
+      if len(bs) == 2:
+        bool_names.add(bs[1].get("name"))
+    if d.get("kind") == "VarDecl" and any(x is call for x in cxx.walk(d)):
+      bool_names.add(d.get("name") + ".second")
+  want = "ERASE_" + fld.upper()
+  pushes = []
+  for n in cxx.walk(blk):
+    if n.get("kind") == "CXXMemberCallExpr" and ix.callee(n)[2] in ("emplace", "push"):
+      a = [uncast(term(ix, x)) for x in inner(n)[1:]]
+      if a and a[0][0] == "var" and a[0][1] == want and _line(n) >= _line(call):
+        pushes.append(n)
+  if not pushes:
+    return None
+  push = pushes[0]
+  for n in cxx.walk(blk):
+    if n.get("kind") == "IfStmt" and any(x is push for x in cxx.walk(inner(n)[1] if len(inner(n)) > 1 else n)):
+      c = uncast(term(ix, _if_parts(n)[0]))
+      cs = str(c)
+      if isinstance(c, tuple) and c[0] == "var" and c[1] in bool_names:
+        return f"guarded by `{c[1]}` (second of the insert result)"
+      if any(b.endswith(".second") and b.split(".")[0] in cs and "second" in cs for b in bool_names):
+        return "guarded by .second of the insert result"
+  # (b) an earlier membership test on the same element returns before the insert
+  for n in cxx.walk(blk):
+    if n.get("kind") == "IfStmt" and _line(n) < _line(call):
+      cond, then, els = _if_parts(n)
+      c = uncast(term(ix, cond))
+      if isinstance(c, tuple) and c[0] == "mcall" and c[1] in ("count", "contains") and \
+          fld in str(c[2]) and [uncast(x) for x in c[3:]] == [arg] and _leaves_iteration(then):
+        return "insertion only reached when a prior count() test found the goal absent"
+  return None
+
+
+@rule("R7.6", "C07", floor=11)
 def r7_6(ctx):
   """Undo discipline of the goal-removal state machine.
 
@@ -615,6 +657,30 @@ def r7_6(ctx):
   ctx.check(pair_ok, "source-set-arm:insert-undo", SC, _line(arm[0]),
             "each goal inserted for this alternative must push its ERASE undo",
             {"order": kinds})
+  # (4) the undo of a *set* insertion is pushed iff the element was really added
+  for fn_, scope in ((tr, tr.body), (rm, None)):
+    blocks = [scope] if scope is not None else list(arm)
+    for blk in blocks:
+      for n in cxx.walk(blk):
+        if n.get("kind") != "CXXMemberCallExpr":
+          continue
+        key, f_, nm, obj = ix.callee(n)
+        t = term(ix, obj) if obj is not None else None
+        if not (nm == "insert" and isinstance(t, tuple) and t[0] == "field"
+                and "TraverseState::" in t[1]):
+          continue
+        fld = t[1].split("::")[-1]
+        ftype = ix.field_type.get(t[1].replace("internal::", "") , "") or \
+            ix.field_type.get(t[1], "")
+        if "vector" in ftype:
+          continue
+        verdict = _insert_undo_conditional(ix, fn_, blk, n, fld)
+        ctx.check(verdict is not None, f"{fn_.name}:{fld}:undo-iff-added", SC, _line(n),
+                  f"state.{fld} is a set: insert() is a no-op when the goal is "
+                  "already present, but its ERASE undo is pushed regardless - "
+                  "backtracking then erases a goal that belongs to an outer level "
+                  "(the next source-set alternative runs without it)",
+                  {"discharged_by": verdict})
   # every action kind is produced somewhere (an undo kind nobody pushes is a lost undo)
   produced = {e[1] for e in _state_mutations(ix, tr.body) + _state_mutations(ix, rm.body)
               if e[0] == "push"}
@@ -684,4 +750,8 @@ VARIANTS = [
      "old": "      case ERASE_NEW_GOALS:\n        state.new_goals.pop_back();", "new": "      case ERASE_NEW_GOALS:\n        state.removed_goals.pop_back();"},
     {"name": "twin-undo-comment-only", "rule": "R7.6", "file": _tg("solver.cc"), "expect": "silent",
      "old": "  actions.emplace(ERASE_SEEN_GOALS, it);\n", "new": "  // undo on backtrack\n  actions.emplace(ERASE_SEEN_GOALS, it);\n"},
+    {"name": "seeded-C07-r2m1-undo-pushed-unconditionally", "rule": "R7.6", "patch": "seeded/C07-r2m1/patch.diff", "expect": "fire"},
+    {"name": "twin-undo-guarded-by-second", "rule": "R7.6", "file": _tg("solver.cc"), "expect": "silent",
+     "old": "          auto [it, added] = state.goals_to_remove.insert(next_goal);\n          if (added) {",
+     "new": "          auto res = state.goals_to_remove.insert(next_goal);\n          if (res.second) {"},
 ]
